@@ -189,14 +189,17 @@ impl JWriter<'_> {
                 self.kind_obj("date", vec![("val".into(), Box::new(move |w: &mut JWriter| w.string(&t)))]);
             }
             MVal::Time(h, mi, s, n) => {
-                let t = format!("{:02}:{:02}:{:02}{}", h, mi, s, Self::frac(*n, self.rng, self.vary));
+                // leap second: second 59 + nanos >= 1e9, written as second 60
+                let (leap, nanos) = if *n >= 1_000_000_000 { (1, *n - 1_000_000_000) } else { (0, *n) };
+                let t = format!("{:02}:{:02}:{:02}{}", h, mi, s + leap, Self::frac(nanos, self.rng, self.vary));
                 self.kind_obj("time", vec![("val".into(), Box::new(move |w: &mut JWriter| w.string(&t)))]);
             }
             MVal::DateTime(d) => {
                 let local = d.secs + d.offset as i64;
                 let (y, mo, dd) = civil_from_days(local.div_euclid(86400));
                 let sod = local.rem_euclid(86400);
-                let mut t = format!("{:04}-{:02}-{:02}T{:02}:{:02}:{:02}{}", y, mo, dd, sod / 3600, (sod / 60) % 60, sod % 60, Self::frac(d.nanos, self.rng, self.vary));
+                let (leap, nanos) = if d.nanos >= 1_000_000_000 { (1, d.nanos - 1_000_000_000) } else { (0, d.nanos) };
+                let mut t = format!("{:04}-{:02}-{:02}T{:02}:{:02}:{:02}{}", y, mo, dd, sod / 3600, (sod / 60) % 60, sod % 60 + leap, Self::frac(nanos, self.rng, self.vary));
                 if d.offset == 0 && !self.flip(1, 3, "zero-offset-numeric") {
                     t.push('Z');
                 } else {
@@ -347,8 +350,11 @@ fn parse_time(s: &str) -> R<(u32, u32, u32, u32)> {
     } else {
         0
     };
-    if h > 23 || m > 59 || sec > 59 {
+    if h > 23 || m > 59 || sec > 60 {
         return Err(format!("bad time {s:?}"));
+    }
+    if sec == 60 {
+        return Ok((h, m, 59, nanos + 1_000_000_000));
     }
     Ok((h, m, sec, nanos))
 }
